@@ -24,7 +24,7 @@ RULE = ("each run = one graph (<=8 nodes; random string labels or ints; asymmetr
 REAL = ["solvor.articulation.articulation_points/bridges", "solvor.kcore.kcore_decomposition/kcore", "solvor.pagerank.pagerank",
         "solvor.community.louvain"]
 STUB = ["neighbour call-back (a fixed adjacency table per run)"]
-ASSUMPTIONS = ["labels of one graph are mutually comparable (all str or all int)", "neighbours lie inside the node set"]
+ASSUMPTIONS = ["labels handed to bridges are mutually comparable (its documented (u, v) with u < v output); the other functions also get frozenset and None labels", "neighbours lie inside the node set"]
 TIERS = {
     "quick": {"runs": 288000, "block": 6000, "budget_s": 75, "hash_seeds": 16},
     "thorough": {"runs": 40000000, "block": 10000, "budget_s": 900, "hash_seeds": 64},
@@ -61,6 +61,20 @@ def generate(rng, tier):
         if rng.random() < 0.5:
             rng.shuffle(order)
         return {"fn": fn, "n": n, "adj": adj, "labels": list(range(n)), "order": order, "kw": {}, "fresh": False, "clusters": clusters}
+    if fn in ("articulation_points", "bridges") and rng.random() < 0.0008:
+        # a deep tree: one path of a thousand or more nodes with a few pendant leaves, walked from one end.  In a tree every
+        # node of degree >= 2 is a cut vertex and every edge a bridge (by definition, no search needed)
+        n_path = rng.choice([1100, 1100, 2500])
+        adj = [[] for _ in range(n_path)]
+        for i in range(n_path - 1):
+            if rng.random() < 0.7:
+                adj[i].append(i + 1)
+            else:
+                adj[i + 1].append(i)
+        for _ in range(rng.randrange(0, 6)):
+            adj.append([rng.randrange(n_path)])
+        n = len(adj)
+        return {"fn": fn, "n": n, "adj": adj, "labels": list(range(n)), "order": list(range(n)), "kw": {}, "fresh": False, "tree": True}
     if fn == "louvain" and rng.random() < 0.002:
         # a few thousand edges: the last improving pass may gain next to nothing
         n = rng.choice([800, 2000])
@@ -128,6 +142,14 @@ def generate(rng, tier):
         labels = rng.sample(range(1000, 5000), n)  # ints outside the small-int cache
     else:
         labels = [list(t) for t in rng.sample([(a, b) for a in range(4) for b in range(4)], n)]  # (row, col) style labels
+    if fn != "bridges" and n and rng.random() < 0.1:
+        # labels that are hashable but not totally ordered (only bridges documents an ordering of its labels):
+        # frozensets, whose `<` is the subset relation, or None next to ordinary labels
+        if rng.random() < 0.5 and n <= 15:
+            subsets = [[i for i in range(4) if (b >> i) & 1] for b in range(1, 16)]
+            labels = [{"fs": s} for s in rng.sample(subsets, n)]
+        else:
+            labels[rng.randrange(n)] = None
     order = list(range(n))
     rng.shuffle(order)
     # fresh: the neighbour call-back hands out equal but not identical label objects (labels computed on the fly)
@@ -181,6 +203,12 @@ def _sub(case, base, k):
 
 
 def ref_articulation(case):
+    if case.get("tree"):
+        deg = [0] * case["n"]
+        for u, v in sym_edges(case):
+            deg[u] += 1
+            deg[v] += 1
+        return {v for v in range(case["n"]) if deg[v] >= 2}
     if case.get("clusters"):
         return {base + v for base, k in case["clusters"] for v in ref_articulation(_sub(case, base, k))}
     n = case["n"]
@@ -195,6 +223,8 @@ def ref_articulation(case):
 
 
 def ref_bridges(case):
+    if case.get("tree"):
+        return set(sym_edges(case))
     if case.get("clusters"):
         return {(base + u, base + v) for base, k in case["clusters"] for u, v in ref_bridges(_sub(case, base, k))}
     n = case["n"]
@@ -300,7 +330,7 @@ def execute(case) -> Outcome:
     if case.get("shared_callable"):
         case = dict(case, labels=list(range(case["n"])), order=list(range(case["n"])), fresh=False, nodes_as="list", nbrs_as="list")
     n, fn = case["n"], case["fn"]
-    L = [tuple(l) if isinstance(l, list) else l for l in case["labels"]]
+    L = [tuple(l) if isinstance(l, list) else (frozenset(l["fs"]) if isinstance(l, dict) else l) for l in case["labels"]]
     idx = {L[i]: i for i in range(n)}
     nodes = [L[i] for i in case["order"]]
     table = {L[u]: [L[v] for v in a] for u, a in enumerate(case["adj"])}
@@ -310,6 +340,10 @@ def execute(case) -> Outcome:
                 return (x + "x")[:-1]
             if isinstance(x, tuple):
                 return tuple(list(x))
+            if isinstance(x, frozenset):
+                return frozenset(list(x))
+            if x is None:
+                return None
             return int(str(x))
         lookup = lambda v: [clone(w) for w in table[v]]
     else:
